@@ -174,6 +174,11 @@ def main():
     a, rep, replay = parse(PROP)
     rep.assumptions = ["Varimax iterated to rtol 1e-13; settings whose iteration does not converge are skipped and counted",
                        "the simple-structure world is exact; the remaining clauses are measured on generic data with independent numpy computations"]
+    if replay is not None and replay["scenario"].get("kind") == "lifecycle_path":
+        from .. import liferun as _lr
+        _lr.replay_path(rep, replay["scenario"], TAGS)
+        rep.extra["distinct_nontrivial"] = 2
+        return common.finish(rep)
     if replay is not None and replay["scenario"].get("kind") == "scenario":
         out = evaluate(replay["scenario"]["index"], replay["scenario"]["scenario"])
         for prop, clause, msg in out["found"]:
